@@ -88,6 +88,15 @@ Theorem c19_plain_is_set : forall lower reg n,
 Proof. exact plain_is_set. Qed.
 Print Assumptions c19_plain_is_set.
 
+(* "texttable.X" with a dot-free X is the text table selected by the decoration
+   name X, whatever X spells: "texttable.csv", "texttable.texttable" name
+   decorations (unknown ones, unless registered), not formats. *)
+Theorem c19_texttable_qualified : forall lower,
+  lower_on_ascii lower -> forall reg x,
+  nodot x -> wrap lower reg (s_texttable ++ DOT :: x) = Ok (RText (text_named reg x)).
+Proof. exact texttable_qualified. Qed.
+Print Assumptions c19_texttable_qualified.
+
 Theorem c19_texttable_default : forall lower,
   lower_on_ascii lower -> forall reg, wrap lower reg s_texttable = Ok (RText text_wrap).
 Proof. exact texttable_default. Qed.
